@@ -1063,13 +1063,45 @@ static void caseLEM(Ctx& c, long idx, Rng& r) {
         Vector qE = freshQ(tw.getQ()); double xn = 0;
         if (g_verbose) { fprintf(stderr, "  returned q:"); for (int i = 0; i < qE.size(); ++i) fprintf(stderr, " %.12g", qE[i]); fprintf(stderr, "\n"); } for (int i = 0; i < qE.size(); ++i) xn += qE[i] * qE[i]; xn = std::max(1.0, std::sqrt(xn));
         std::vector<double> gv;
-        double pg = projectedGradientGeneric([&](const Vector& x) {
-            State f = tw; f.updQ() = freshQ(x); S.m.sys.realize(f, Stage::Dynamics);
-            FnOut o; o.f = S.m.sys.calcPotentialEnergy(f); o.errs = holoErrs(S, f); return o; }, qE, F, lo, hi, &gv);
+        // Feasible directions. The three Euler angles of a LineOrientation/FreeLine mobilizer can only move inside
+        // range(N) (two mobilities): the energy "gradient" the minimizer and the physics see is the generalized
+        // force, which has no component outside it (DESIGN section 8 no. 8). Coordinates w: the identity on every
+        // other q, an orthonormal basis of range(N) on those three; |grad_w| = |P_range(N) grad_q|.
+        const int nqT = qE.size();
+        std::vector<std::vector<std::pair<int, double>>> B; std::vector<double> xs;
+        {
+            State twR = tw; twR.updQ() = freshQ(qE); S.m.sys.realize(twR, Stage::Position);
+            std::vector<char> inLine(nqT, 0);
+            for (int kk = 0; kk < S.nNodes(); ++kk) {
+                if (S.type(kk) != MT_LineOrientation && S.type(kk) != MT_FreeLine) continue;
+                const int a0 = S.q0(kk), u0 = (int)S.m.bodies[kk].getFirstUIndex(twR);
+                double col[2][3], xsc = 1;
+                for (int j = 0; j < 2; ++j) {
+                    Vector uu(twR.getNU()); uu.setToZero(); uu[u0 + j] = 1; Vector dq;
+                    S.m.matter.multiplyByN(twR, false, uu, dq);
+                    for (int i = 0; i < 3; ++i) col[j][i] = dq[a0 + i];
+                }
+                for (int i = 0; i < 3; ++i) { inLine[a0 + i] = 1; xsc = std::max(xsc, std::fabs((double)qE[a0 + i])); }
+                auto nrm = [](double* v) { double n = std::sqrt(v[0] * v[0] + v[1] * v[1] + v[2] * v[2]); if (n > 0) for (int i = 0; i < 3; ++i) v[i] /= n; return n; };
+                nrm(col[0]); double dt = col[0][0] * col[1][0] + col[0][1] * col[1][1] + col[0][2] * col[1][2];
+                for (int i = 0; i < 3; ++i) col[1][i] -= dt * col[0][i];
+                nrm(col[1]);
+                for (int j = 0; j < 2; ++j) { B.push_back({{a0, col[j][0]}, {a0 + 1, col[j][1]}, {a0 + 2, col[j][2]}}); xs.push_back(xsc); }
+            }
+            for (int i = 0; i < nqT; ++i) if (!inLine[i]) { B.push_back({{i, 1.0}}); xs.push_back(std::max(1.0, std::fabs((double)qE[i]))); }
+        }
+        const int nw = (int)B.size();
+        std::vector<int> Fw; for (int i = 0; i < nw; ++i) Fw.push_back(i);
+        std::vector<double> low(nw, -Infinity), hiw(nw, Infinity);
+        Vector w0(nw); w0.setToZero();
+        double pg = projectedGradientGeneric([&](const Vector& w) {
+            Vector x = freshQ(qE); for (int cI = 0; cI < nw; ++cI) if (w[cI] != 0) for (auto& e : B[cI]) x[e.first] += w[cI] * e.second;
+            State f = tw; f.updQ() = x; S.m.sys.realize(f, Stage::Dynamics);
+            FnOut o; o.f = S.m.sys.calcPotentialEnergy(f); o.errs = holoErrs(S, f); return o; }, w0, Fw, low, hiw, &gv);
         const std::string fk = fkinds.find('m') != std::string::npos ? "with-mobility-forces" : "body-forces";
         if (!S.hasCons()) {
             // unconstrained -> LBFGS, whose (SimTK) stopping rule is max_i |g_i|*max(1,|x_i|) <= tol*max(0.1,|f|)
-            double rs = 0; for (size_t i = 0; i < gv.size(); ++i) rs = std::max(rs, std::fabs(gv[i]) * std::max(1.0, std::fabs((double)qE[F[i]])));
+            double rs = 0; for (size_t i = 0; i < gv.size(); ++i) rs = std::max(rs, std::fabs(gv[i]) * xs[i]);
             rs /= std::max(0.1, std::fabs(pe1));
             c.check("lem-stationary:tree:" + fk, rs, 2 * tolerance + 1e-6, [&] { return W().set("scaledGradient", rs).set("gradientInf", pg); });
         } else
